@@ -447,7 +447,7 @@ def sb_group(name, harness, quick, thorough, **kw):
 def build_items(tier):
     P = lambda **kw: kw
     if tier == "quick":
-        cfgs = [("r2d1a1", P(nPkg=2, nDeps=1, nReg=0, nAdds=1, relative=1), 1), ("r2d1a2", P(nPkg=2, nDeps=1, nReg=0, nAdds=2, relative=0), 4),
+        cfgs = [("r2d1a1", P(nPkg=2, nDeps=1, nReg=0, nAdds=1, relative=1, escapes=1), 2), ("r2d1a2", P(nPkg=2, nDeps=1, nReg=0, nAdds=2, relative=0), 4),
                 ("r3d1a1", P(nPkg=3, nDeps=1, nReg=0, nAdds=1, relative=0), 5),
                 ("g2d1a1", P(nPkg=2, nDeps=1, nReg=1, nAdds=1, relative=0, twosets=1), 8), ("m2d1a1", P(nPkg=2, nDeps=1, nReg=0, nAdds=1, relative=0, symMeta=1, symContent=1), 3),
                 ("w1d1a2", P(nPkg=1, nDeps=1, nReg=0, nAdds=2, relative=1, warn=1), 2), ("g1d2a1", P(nPkg=1, nDeps=2, nReg=1, nAdds=1, relative=0, twosets=1), 8)]
@@ -517,7 +517,7 @@ CHECKS["C13"] = {
                "thorough": "3 packages, 3 Add calls in all 6 orders, 1 dependency"},
     "assumptions": SB_ASSUME + ["sequential executor: interleavings of concurrent Add calls are not explored"],
     "groups": [sb_group("order", ["harness/sourcebundle/c13.go"],
-                        quick=[{"id": "order-p2a2d0", "entry": "HarnessC13Order", "params": {"nPkg": 2, "nAdds": 2, "nDeps": 0, "symContent": 1}, "map_order": 4, "shards": 2, "_w": 30},
+                        quick=[{"id": "order-p2a2d0", "entry": "HarnessC13Order", "params": {"nPkg": 2, "nAdds": 2, "nDeps": 0, "symContent": 1, "pruned": 1}, "map_order": 4, "shards": 2, "_w": 30},
                                {"id": "order-p2a2d1", "entry": "HarnessC13Order", "params": {"nPkg": 2, "nAdds": 2, "nDeps": 1, "symContent": 0}, "map_order": 2, "shards": 20, "_w": 50, "shard_depth": 12},
                                {"id": "order-p2a2d0-meta", "entry": "HarnessC13Order", "params": {"nPkg": 2, "nAdds": 2, "nDeps": 0, "symContent": 1, "symMeta": 1}, "map_order": 2, "shards": 4, "_w": 40},
                                {"id": "order-reg-p2a2d1", "entry": "HarnessC13Order", "params": {"nPkg": 2, "nAdds": 2, "nDeps": 1, "symContent": 0, "regAdds": 1, "leaf": 1, "kinds": 3}, "map_order": 2, "shards": 20, "_w": 40, "shard_depth": 12}],
@@ -559,7 +559,8 @@ CHECKS["C10"] = {
                "thorough": "N=2 (<=4 segments), N=3 (<=2 segments)"},
     "assumptions": SB_ASSUME + ["no rule file in the fetched package in this harness (ignore-driven deletion: C03 evaluation layer)", "the working directory is not modified concurrently (documented precondition)"],
     "groups": [sb_group("sanitise", ["harness/sourcebundle/c10.go"],
-                        quick=[{"id": "c10-N1", "entry": "HarnessC10", "params": {"N": 1, "sLink": 3}}, {"id": "c10-N2", "entry": "HarnessC10", "params": {"N": 2, "sLink": 2}, "shards": 12, "_w": 50}],
+                        quick=[{"id": "c10-N1", "entry": "HarnessC10", "params": {"N": 1, "sLink": 3, "intoWorkdir": 1}}, {"id": "c10-N2", "entry": "HarnessC10", "params": {"N": 2, "sLink": 2}, "shards": 12, "_w": 50},
+                               {"id": "c10-N2-abs", "entry": "HarnessC10", "params": {"N": 2, "sLink": 1, "intoWorkdir": 1}, "shards": 8, "_w": 40}],
                         thorough=[{"id": "c10-N2", "entry": "HarnessC10", "params": {"N": 2, "sLink": 4}, "shards": 16}, {"id": "c10-N3", "entry": "HarnessC10", "params": {"N": 3, "sLink": 2}, "shards": 16}],
                         reach=["built", "build-failed", "link-kept"], sample_every=40)],
 }
@@ -601,7 +602,7 @@ CHECKS["C12"] = {
                    + [{"id": "c12-unpack-K2", "entry": "HarnessC12Unpack", "params": {"K": 2, "nName": 3, "nLink": 3, "faults": 2}, "shards": 16}],
                    reach=["write-fault-injected", "read-fault-injected", "unpack-ok", "pack-ok"], sample_every=60),
         sb_group("buildfaults", ["harness/sourcebundle/c12.go"],
-                 quick=[{"id": "c12-build-p2", "entry": "HarnessC12Build", "params": {"nPkg": 2, "faults": 1}, "shards": 10, "_w": 60}],
+                 quick=[{"id": "c12-build-p2", "entry": "HarnessC12Build", "params": {"nPkg": 2, "faults": 1, "static": 1}, "shards": 10, "_w": 60}],
                  thorough=[{"id": "c12-build-p3", "entry": "HarnessC12Build", "params": {"nPkg": 3, "faults": 1}, "shards": 16}],
                  reach=["failed-build", "clean-build"], sample_every=150),
     ],
@@ -719,3 +720,86 @@ CHECKS["C04"]["groups"].append(
                reach=["second-unpack", "allow-link-created"], sample_every=40))
 CHECKS["C04"]["bounds"]["quick"] += "; allow-list: one Packer with the relative entry '../e' unpacking a link entry into /w/d (5 targets: inside, allow-listed, outside, prefix-sharing sibling, absolute) and then into /w/q/r (target <=4 segments)"
 CHECKS["C04"]["bounds"]["thorough"] += "; allow-list reuse with second target <=5 segments"
+
+# ---- round-3 extensions
+# C01: one Packer, two destinations
+CHECKS["C01"]["groups"][0]["quick"] = list(CHECKS["C01"]["groups"][0]["quick"]) + [
+    {"id": "unpackreuse-K2", "entry": "HarnessC01Reuse", "params": {"K": 2, "sName": 2, "sLink": 1}, "shards": 12, "_w": 50, "shard_depth": 14}]
+CHECKS["C01"]["groups"][0]["reach"] = CHECKS["C01"]["groups"][0]["reach"] + ["second-unpack"]
+CHECKS["C01"]["bounds"]["quick"] += "; one Packer unpacking K=2 symbolic entries (names <=2 segments) into /w/d, possibly failing part-way, and then a fixed archive into /w/q/r: the second call touches nothing outside /w/q/r; raw entries also of type 'g' (PAX global header record)"
+# C02 / C05: the slug fed back into Unpack under 5 spellings of the destination; C02: write faults
+for _pid in ("C02", "C05"):
+    CHECKS[_pid]["groups"][0]["quick"] = list(CHECKS[_pid]["groups"][0]["quick"]) + [
+        {"id": "pack-N1-out5", "entry": "HarnessPack", "params": {"N": 1, "nLink": 3, "opts": 0, "nOut": 5}, "shards": 4, "_w": 30}]
+    CHECKS[_pid]["bounds"]["quick"] += "; N=1 with the produced slug unpacked into 5 spellings of the destination (trailing / doubled slash, dot and dot-dot segments)"
+CHECKS["C02"]["groups"].append(slug_group("faults", ["harness/slug/unpack.go", "harness/slug/pack.go", "harness/slug/c12.go"],
+                                          quick=[{"id": "c02-fault-N1-o%d" % o, "entry": "HarnessC12Pack", "params": {"N": 1, "nLink": 2, "opts": o, "faults": 1}} for o in (0, 2)],
+                                          thorough=[{"id": "c02-fault-N2-o0", "entry": "HarnessC12Pack", "params": {"N": 2, "nLink": 2, "opts": 0, "faults": 1}, "shards": 4}],
+                                          reach=["write-fault-injected"], sample_every=30))
+CHECKS["C02"]["bounds"]["quick"] += "; N=1 with one injected failure at every position of the output stream: Pack must not report success for a slug the tree cannot be restored from"
+# C12: policy rejections below a dereferenced directory keep their type
+CHECKS["C12"]["groups"].append(slug_group("ext-cycle", ["harness/slug/unpack.go", "harness/slug/pack.go"],
+                                          quick=[{"id": "c12-ext-cycle", "entry": "HarnessC19ExtCycle", "shards": 4, "_w": 30, "max_steps": 3000000}],
+                                          thorough=[], reach=["ext-cycle-packed"], sample_every=5, isolated=True))
+CHECKS["C12"]["bounds"]["quick"] += "; Pack with dereferencing into link cycles between two directories outside the tree (3 x 4 x 5 link spellings): every refusal is an IllegalSlugError"
+# C15: recorded access times; one directory listed three times under different spellings
+CHECKS["C15"]["groups"][0]["quick"] = list(CHECKS["C15"]["groups"][0]["quick"]) + [
+    {"id": "c15-K1-atime", "entry": "HarnessC15", "params": {"K": 1, "atime": 1}},
+    {"id": "c15-K3-dirs", "entry": "HarnessC15", "params": {"K": 3, "onlyDirs": 1}, "shards": 8, "_w": 40}]
+CHECKS["C15"]["bounds"]["quick"] += "; K=1 with an access time recorded in the header (PAX); K=3 directory entries over the 13 name spellings"
+# C03: two rule files parsed before either is used
+CHECKS["C03"]["groups"][0]["quick"] = list(CHECKS["C03"]["groups"][0]["quick"]) + [
+    {"id": "interleave-p%d" % n, "entry": "HarnessC03Interleave", "params": {"nPath": n}, "shards": 4, "_w": 20} for n in (1, 2, 3)]
+CHECKS["C03"]["groups"][0]["reach"] = CHECKS["C03"]["groups"][0]["reach"] + ["interleaved"]
+CHECKS["C03"]["bounds"]["quick"] += "; two rule files (12 x 12 small ones) parsed one after the other before either is evaluated, paths 1..3 bytes"
+# C09: failures while the archive is written
+CHECKS["C09"]["groups"][0]["quick"] = list(CHECKS["C09"]["groups"][0]["quick"]) + [
+    {"id": "c09-p1-faults", "entry": "HarnessC09", "params": {"nPkg": 1, "registry": 0, "faults": 1}, "shards": 4, "_w": 30}]
+CHECKS["C09"]["groups"][0]["reach"] = CHECKS["C09"]["groups"][0]["reach"] + ["archive-write-fault"]
+CHECKS["C09"]["bounds"]["quick"] += "; 1 package with one injected failure at every position of the archive output stream (WriteArchive must report it); in-package links with targets not in minimal form"
+# C10: rule file with an overlong line
+CHECKS["C10"]["groups"][0]["quick"] = list(CHECKS["C10"]["groups"][0]["quick"]) + [
+    {"id": "c10-rules-long", "entry": "HarnessC10Rules", "params": {"sLink": 1, "longLine": 1}, "shards": 2, "_w": 30, "max_steps": 30000000}]
+CHECKS["C10"]["bounds"]["quick"] += "; the rules world with a rule file whose first line is a 65536-byte comment (bufio.Scanner's token limit, run from its SSA), a fifo as rule file, excluded directories nested three deep, links with absolute targets into the fetch directory"
+CHECKS["C13"]["bounds"]["quick"] += "; packages also carry a .git/HEAD that differs from package to package and is removed by the built-in rules (does not count as content)"
+CHECKS["C08"]["bounds"]["quick"] += "; relative dependencies may climb to just above the package root ('..' from the root, '../..' from m): such a build must report an error"
+# C19: opening any manifest
+CHECKS["C19"]["groups"].append(
+    sb_group("manifests", ["harness/sourcebundle/c18.go"],
+             quick=[{"id": "manifest-p1r2", "entry": "HarnessC19Manifest", "params": {"nPkgs": 1, "nRegs": 2}, "no_panic": True, "shards": 8, "_w": 40},
+                    {"id": "c18-2pkg", "entry": "HarnessC18", "params": {"nPkgs": 2, "nDir": 2, "nSub": 2, "nPath": 3}, "no_panic": True, "shards": 8, "_w": 50}],
+             thorough=[{"id": "manifest-p2r2", "entry": "HarnessC19Manifest", "params": {"nPkgs": 2, "nRegs": 2}, "no_panic": True, "shards": 16}],
+             reach=["manifest-opened", "manifest-refused"], sample_every=50))
+CHECKS["C19"]["anchors"] += ["github.com/hashicorp/go-slug/sourcebundle.OpenDir"]
+CHECKS["C19"]["bounds"]["quick"] += "; OpenDir + all accessors on manifests with 1 package entry and 2 registry entries drawn from menus (5 addresses incl. invalid ones and two spellings of one registry package, 5 directory names, 4 version-map shapes incl. none / invalid version strings / deprecation), and on the C18 manifests (2 entries with free directory names)"
+CHECKS["C18"]["bounds"]["quick"] += "; the bundle directory opened directly or by way of a symlink"
+# C06 / C07 round-3 templates
+CHECKS["C06"]["groups"][0]["quick"] += [
+    {"id": "derived-q-url", "entry": "HarnessC06Derived", "sparams": {"tmpl": "https://example.com/foo.tgz?mirror=https://c{a1}n.example.com/foo.tgz"}, "params": {"nSub": 2}, "_w": 3},
+    {"id": "derived-q-ref", "entry": "HarnessC06Derived", "sparams": {"tmpl": "git::https://example.com/r.git?ref=a//{a1}"}, "params": {"nSub": 2}, "_w": 3},
+    {"id": "versioned-idn", "entry": "HarnessC06Versioned", "sparams": {"reg": "テラフォーム.example.com/bleep/bloop/blorp//modules/x", "tmpl": "1.2.{a1}"}, "_w": 2}]
+CHECKS["C06"]["bounds"]["quick"] += "; derived values for packages whose query holds '//' (a URL-valued argument, a ref with '//'); version selection on a registry address with a non-ASCII (IDN) host"
+CHECKS["C07"]["groups"][0]["quick"] += tmpl_items("any3", "HarnessC07Parse", ["git::https://example.com/r.git//a/%{a1}{a1}%2e/b", "git::https://example.com/r.git//a%2{a1}b", "github.com/a/b//m/%2{a1}%2{a1}/c"])
+CHECKS["C07"]["bounds"]["quick"] += "; sub-paths with percent-encoded bytes (what is validated is what is stored)"
+# C14 / C11: several references to one registry package with different sub-paths (cache hits)
+_g1d2s = {"id": "build-g1d2a1-subs", "entry": "HarnessBuild", "params": {"nPkg": 1, "nDeps": 2, "nReg": 1, "nAdds": 1, "relative": 0, "kinds": 9}, "shards": 12, "_w": 60, "no_hang": True, "max_steps": 3000000}
+CHECKS["C14"]["groups"][0]["quick"] = list(CHECKS["C14"]["groups"][0]["quick"]) + [_g1d2s]
+CHECKS["C08"]["groups"][0]["quick"] = list(CHECKS["C08"]["groups"][0]["quick"]) + [_g1d2s]
+CHECKS["C14"]["bounds"]["quick"] += "; two registry dependencies per location on one registry package with sub-paths '' / 'm' and three allowed sets (cache hits with a different sub-path)"
+CHECKS["C11"]["groups"].append(
+    sb_group("registry-subpaths", ["harness/sourcebundle/c14.go"], quick=[_g1d2s], thorough=[dict(_g1d2s, id="build-g2d2a1-subs", params=dict(_g1d2s["params"], nPkg=2), shards=16)],
+             reach=["built"], sample_every=100))
+CHECKS["C11"]["anchors"] += ["(*github.com/hashicorp/go-slug/sourcebundle.Builder).findRegistryPackageSource"]
+CHECKS["C11"]["bounds"]["quick"] += "; through the builder: two registry dependencies per location on one registry package with sub-paths '' / 'm', registry answers with sub-path '' (the finder declared for the joined location is run exactly there, also on a cache hit)"
+# C08: registry packages of the same namespace/name/system on two hosts (manifest grouping)
+CHECKS["C08"]["groups"].append(
+    sb_group("hosts", ["harness/sourcebundle/c17.go"],
+             quick=[{"id": "builder-n2-hosts", "entry": "HarnessC17Builder", "params": {"n": 2, "requests": 2, "sets": 2, "vals": 2, "hosts": 2}, "shards": 12, "_w": 60}],
+             thorough=[], reach=["some-allowed"], sample_every=100))
+CHECKS["C08"]["bounds"]["quick"] += "; two registry requests addressed to one of two hosts carrying the same namespace/name/system: every resolved version of either package can be looked up in the finished bundle"
+# C19: rule lines that are not valid patterns, matched repeatedly
+CHECKS["C19"]["groups"].append(
+    slug_group("bad-rules", ["harness/slug/unpack.go", "harness/slug/pack.go", "harness/slug/c19rules.go"],
+               quick=[{"id": "bad-rules", "entry": "HarnessC19BadRules", "no_panic": True, "no_hang": True}],
+               thorough=[], reach=["bad-rules-packed"], sample_every=1, isolated=True))
+CHECKS["C19"]["bounds"]["quick"] += "; Pack with ignore processing over a 4-entry tree with 14 rule files containing lines that are not valid patterns (unclosed classes, stray escapes)"
